@@ -30,19 +30,19 @@ checks = [
  dag("C13", "deterministic simulation: revert reached through origin rejection of write-then-fail commands and failed session operations; later reads compared with the model", "State after a revert equals the model in which the failed operation never happened."),
  dag("C14", "deterministic simulation: session histories (actions, receives, failing operations, garbled messages) against a base+overlay map model", "Session view == committed facts overlaid with session writes; failed operations leave no change; graph heads/facts never change."),
  dag("C16", "deterministic simulation: complete undisturbed sync sessions over the simulated transport and a quiescence phase with bounded rounds", "Each undisturbed session delivers at least one command the requester lacked; bidirectional sync until silence converges within a bound. One cause-specific known finding (requester ahead of the peer by more than the sample window with no cache entry)."),
- dag("C17", "deterministic simulation: responder output observed through a mirror of the wire format; small receive buffers injected", "Sent commands are committed at the responder, indexes increase by one, sessions end, clean in-order responses are always addable."),
- dag("C18", "deterministic simulation with transport corruption: byte-level and field-aware mutations, truncation, misdelivery, duplication on live sessions under catch_unwind", "No panic on any delivered buffer; command slices inside the buffer; requester accepts only its own session and the next index."),
+ dag("C17", "deterministic simulation: responder output (poll responses and subscription pushes) observed through a mirror of the wire format; small receive buffers injected with retry on the same responder", "Sent commands are committed at the responder, indexes increase by one, sessions end, clean in-order responses are always addable. Pushes (start_session from the peer-cache heads, one push message, receive_push, add, commit, cache update): every pushed command is committed at the publisher, every parent is pushed earlier or covered by the cache heads the session started from, an untouched push is accepted and addable when the cache is truthful, also after a BufferTooSmall retry."),
+ dag("C18", "deterministic simulation with transport corruption: byte-level and field-aware mutations, truncation, misdelivery, duplication of poll, response, push, subscribe, unsubscribe and hello messages of live replicas under catch_unwind", "No panic on any delivered buffer in SyncIncoming::decode, responder.receive, requester.receive / receive_push, update_heads on a subscription sample, should_sync_on_hello on a damaged notification; command and policy slices inside the buffer; a requester accepts only its own session and the next index (also for pushes: wrong session, replayed push, non-zero first index)."),
  dag("C19", "deterministic simulation: hello decisions evaluated between arbitrary replica pairs reached by sync, actions and lazy merges", "'No sync' implies committed(peer) subset of committed(self), also right after a commit that failed with an injected disk error; equal head sets give equal hello heads; a replica without the graph always syncs."),
  dag("C15", "deterministic simulation with crash injection: real FileManager/Writer/Reader of storage/linear/libc on a simulated disk below aranya-libc's system calls (page cache vs durable image, sector-atomic order-respecting loss of un-synced writes, torn multi-sector writes, lost length extension, EINTR, short I/O, EIO, ENOSPC, crash inside any system call, crash during the first commit after a recovery) plus crash-state exploration: at every fsync/fdatasync inside a commit up to 3 crash images are reopened with a fresh FileManager", "After every crash and reopen the replica must expose the last completed commit or a commit that was in progress (heads = frontier of that command set; all commands, ancestry answers and facts readable and equal to the model), or an error only when no commit had completed; the run then continues on the recovered store under all other oracles."),
  dag("C21", "deterministic simulation with an in-situ refinement monitor: every traversal-queue operation performed by searches, braids and sync during simulated runs is reported by a guarded hook with the queue's logical pre-state; each transition and each drain callback is checked against the documented rules transcribed over multisets", "Pop removes an entry of highest max cut; push keeps one entry per segment with the highest cut and the documented covered/uncovered merge; cover_up_to arithmetic; drain_above/drain_all remove exactly the entries above the threshold and hand exactly the uncovered ones to the callback. Only operation sequences the real callers produce are explored."),
- dag("C20", "deterministic simulation: peer-cache invariants after every update plus an exact delta rule per recorded address, including bogus and uncommitted addresses, and read errors placed inside updates on file-backed replicas", "At most ten entries, each committed locally at the recorded location, pairwise non-ancestors; update rule exact."),
+ dag("C20", "deterministic simulation: peer-cache invariants after every update plus an exact delta rule per recorded address, including bogus and uncommitted addresses, subscription samples recorded with update_heads, caches updated after pushed commits, and read errors placed inside updates on file-backed replicas", "At most ten entries, each committed locally at the recorded location, pairwise non-ancestors; update rule exact."),
 ]
 
 def simple(pid, engine, technique, text, note, design):
     return dict(property_id=pid, engine=engine, technique=technique, text=text, note=note, design=design)
 
 checks += [
- simple("C45", "kssim", "deterministic simulation: seeded operation histories (<= 4 ids; entry/insert/get/remove/drop/reopen/clone) on the real MemStore and fs Store against a BTreeMap model; restart is the fault; ddmin replay",
+ simple("C45", "kssim", "deterministic simulation: seeded operation histories (<= 4 ids; entry/insert/get/remove/drop/reopen/clone; keys that are real wrapped keys, sequences of small items, or ONE text / bytes item of 0..64 KiB biased to buffer and length-prefix boundaries; keys whose encoding fails half way) on the real MemStore and fs Store against a BTreeMap model; restart is the fault; ddmin replay",
         "Every observation of both stores equals the map model step by step; reopen shows the same contents.",
         "Sequential histories only; no mid-operation crash or I/O fault below the fs store (it calls rustix directly, no seam). Real directory on the real file system.", "DESIGN.md section 7"),
  simple("C33", "mirisim", "Miri as the simulator: seeded clone/read/hash/convert/drop workloads over shared heap Text on 2-3 threads, one schedule per Miri seed (pre-emption, weak memory, race/UAF/leak detection)",
@@ -58,7 +58,7 @@ checks += [
  afc("C39", "deterministic simulation of a lossy, corrupting transport between two real AFC clients: seeded truncation to every length, bit flips, extension, duplication, reordering, delivery to another channel or label; copying and in-place interfaces under catch_unwind", "Intact deliveries open to the sealed plaintext, label and sequence number; everything else returns an error without panicking and leaves the output buffer zeroed."),
  afc("C40", "deterministic simulation: shuttle-scheduled reader and writer threads over the real shared-memory state (seeded random and PCT schedules, injected seal failures, concurrent add/remove forcing cache invalidation); history check of sequence numbers per seal context", "Successful seals of one context carry 0,1,2,... and open at the peer with that number; the in-memory state never lends a second live seal context."),
  afc("C41", "deterministic simulation: shuttle-scheduled writer and clients over both state implementations; real-time order by global event number (removal return precedes operation invoke)", "An operation that starts after a removal returned fails with not-found on a removed channel; surviving channels keep working; removed ids never reappear."),
- afc("C42", "deterministic simulation: shuttle-scheduled single writer and readers over the real shared-memory tables with a set-sequence model (every reader snapshot must be a set the writer produced)", "Reader-visible tables are writer-produced sets; both copies agree at writer quiescence; ids never reused; out-of-space exactly when full."),
+ afc("C42", "deterministic simulation: shuttle-scheduled single writer and readers over the real shared-memory tables with a set-sequence model (every reader snapshot, and every answer of ReadState::exists, must be explained by a set the writer produced between the call's invoke and return)", "Reader-visible tables are writer-produced sets; both copies agree at writer quiescence; ids never reused; out-of-space exactly when full."),
  afc("C43", "deterministic simulation: 2-3 shuttle-scheduled threads on the real sys_lock/sys_unlock paths with a simulated futex that injects spurious wake-ups and wake-before-wait orders; deadlock and step-bound detection by the scheduler", "Never two holders; no deadlock or starvation within the step bound on any explored schedule."),
  afc("C44", "deterministic simulation: shuttle-scheduled threads racing lend, access through the loan, removal and drops in every order on the real Lender/Loan (exported under the guard) and through memory::State; drop-counting payload", "At most one live loan; access fails after the entry is removed; the shared data is dropped exactly once after both sides are gone."),
 ]
